@@ -209,7 +209,7 @@ Definition ures := (nat * res (msg * list Z * Z * addr * list uev))%type.
 (* ---------- streams ---------- *)
 Inductive rxev :=
 | RAvail (k : nat)          (* recv(count) returns the next min(k, count) octets of the stream *)
-| RBlock (dt : option Z)    (* BlockingIOError; readable after dt *)
+| RBlock (dt : option Z)    (* BlockingIOError / ssl.SSLWantReadError / ssl.SSLWantWriteError; ready after dt *)
 | REof.                     (* recv returns b"" *)
 
 Inductive txev :=
@@ -775,6 +775,12 @@ Definition dec_rev (o : obs) : option rxev :=
   match o with
   | L [I 0; I k] => Some (RAvail (Z.to_nat k))
   | L [I 1; d] => match dec_oz d with Some d => Some (RBlock d) | None => None end
+  (* recv raising ssl.SSLWantReadError (3) / ssl.SSLWantWriteError (4): like BlockingIOError the
+     handler waits (for readability resp. writability) and the loop goes round again, so all three
+     are the would-block event; which readiness the code waits for is checked by the scripted
+     selector of the harness (waiting for the wrong one never ends) *)
+  | L [I 3; d] => match dec_oz d with Some d => Some (RBlock d) | None => None end
+  | L [I 4; d] => match dec_oz d with Some d => Some (RBlock d) | None => None end
   | L [I 2] => Some REof
   | _ => None
   end.
@@ -783,6 +789,9 @@ Definition dec_wev (o : obs) : option txev :=
   match o with
   | L [I 0; I k] => Some (WAccept (Z.to_nat k))
   | L [I 1; d] => match dec_oz d with Some d => Some (WBlock d) | None => None end
+  (* send raising ssl.SSLWantReadError (3) / ssl.SSLWantWriteError (4): see dec_rev *)
+  | L [I 3; d] => match dec_oz d with Some d => Some (WBlock d) | None => None end
+  | L [I 4; d] => match dec_oz d with Some d => Some (WBlock d) | None => None end
   | _ => None
   end.
 
